@@ -305,6 +305,30 @@ Proof.
   - destruct post as [|[s2 c2] post2]; simpl; [exact Hhi|]. inversion Hpost; subst. assumption.
 Qed.
 
+(* F6: child_range for the NEW separator choice (sep' = key if index = 0 and key < sep, else sep) *)
+Lemma child_range_f6 (o : cop K V) p (cs pre post : list (K * itree)) sep sep' child index (t : itree) (C : list cframe) lo hi :
+  ordered ltb (erase_ids t) -> find p t = Some (INode p cs) ->
+  cs = pre ++ (sep, child) :: post -> length pre = index ->
+  search_le ltb (key_of o) (map fst cs) = Ok index ->
+  ge_lo ltb (key_of o) lo && lt_hi ltb (key_of o) hi = true ->
+  (if index =? 0 then (if ltb (key_of o) sep then key_of o else sep) else sep) = sep' ->
+  ltb (key_of o) sep' = false /\ lt_hi ltb (key_of o) (next_hi hi post) = true.
+Proof.
+  intros Hord Hfp Ecs Hlen Hs H4 Hsep. set (key := key_of o) in *.
+  assert (Hasc : asc ltb (map fst cs)) by (eapply node_asc; eauto).
+  assert (Hne : cs <> []) by (subst cs; destruct pre; discriminate).
+  destruct (search_le_split K ltb HS key cs Hasc Hne) as (j & pre' & s' & c' & post' & E1 & E2 & E3 & _ & Hpost & Hidx).
+  rewrite Hs in E1. inversion E1; subst j. clear E1.
+  rewrite Ecs in E2. destruct (app_eq_len pre pre' _ _ post post' E2) as (<- & E4 & <-); [lia|].
+  inversion E4; subst s' c'. clear E4 E2.
+  apply andb_prop in H4. destruct H4 as [Hlo Hhi].
+  split.
+  - destruct (index =? 0) eqn:E0.
+    + destruct (ltb key sep) eqn:Eks; subst sep'; [apply (swo_irrefl HS)|exact Eks].
+    + subst sep'. apply Hidx. apply Nat.eqb_neq in E0. lia.
+  - destruct post as [|[s2 c2] post2]; simpl; [exact Hhi|]. inversion Hpost; subst. assumption.
+Qed.
+
 Lemma find_plug_x (C : list cframe) (sub : itree) x :
   NoDup (ids sub ++ ctx_ids C) -> nid sub = x -> find x (plug C sub) = Some sub.
 Proof. intros H <-. apply find_plug_nid. exact H. Qed.
@@ -359,6 +383,109 @@ Proof.
   unfold in_range in H4. rewrite Hbp in H4. destruct (ctx_bounds None None C) as [lo hi] eqn:Ecb.
   match type of H with bind ?e _ = _ => destruct e as [sep'|] eqn:Hsep; [cbn [bind] in H|discriminate H] end.
   destruct (child_range o p cs pre post sep sep' child index t C lo hi Hord Hfp Ecs Hlen Hs H4 Hsep) as [Hlo' Hhi'].
+  fold key in Hlo', Hhi'.
+  assert (Hge : ge_lo ltb key (Some sep') = true) by (simpl; rewrite Hlo'; reflexivity).
+  destruct (isplit order fr child) as [[lft rgt]|] eqn:Hsp.
+  - (* the child is split *)
+    destruct (isplit_facts order fr child lft rgt Ho Hsp) as (N1 & N2 & N3 & N4).
+    destruct (ismallest rgt) as [rs|] eqn:Ers; [cbn [bind] in H|discriminate H].
+    match type of H with bind ?e _ = _ => destruct e as [t'|] eqn:Hu; [cbn [bind] in H|discriminate H] end.
+    destruct (ins_split_rel K V ltb False order [p; nid child; fr] p p cs index sep sep' rs child lft rgt fr t t'
+                Hnd Hfp Hn Hsp Hu Hfr) as (_ & _ & Hnd' & _); try (simpl; tauto).
+    assert (Et' : t' = plug C (INode p (pre ++ (sep', lft) :: (rs, rgt) :: post))).
+    { pose proof (upd_plug_nid K V C (INode p cs)
+                    (INode p (ins_nth (index + 1) (rs, rgt) (set_nth index (sep', lft) cs))) HC) as Hu2.
+      simpl nid in Hu2. rewrite <- Et in Hu2. rewrite Hu2 in Hu. inversion Hu; subst t'.
+      rewrite Ecs. rewrite <- Hlen. rewrite set_nth_app, UpdLemmas.ins_nth_app1. reflexivity. }
+    destruct (ltb key rs) eqn:Ekr.
+    + (* into the left half *)
+      rewrite plug1_eq in Et'.
+      assert (HC' : NoDup (ids lft ++ ctx_ids (mkcf p pre sep' ((rs, rgt) :: post) :: C))).
+      { apply plug_nodup. rewrite <- Et'. exact Hnd'. }
+      eapply ins_descend_pc with (nd := lft); [exact H | exact Hnd' | | exact N3 |].
+      * rewrite Et'. apply find_plug_x; [exact HC' | congruence].
+      * rewrite Et'. eapply in_range_plug; [exact HC' | congruence | simpl; rewrite ?Ecb; reflexivity | exact Hge | exact Ekr].
+    + (* the right half must be locked *)
+      unfold mk in H. inversion H; subst out; clear H. cbn [otr opc].
+      assert (HCp : NoDup (ids (INode p (pre ++ (sep', lft) :: (rs, rgt) :: post)) ++ ctx_ids C)).
+      { apply plug_nodup. rewrite <- Et'. exact Hnd'. }
+      assert (Et2 : t' = plug (mkcf p (pre ++ [(sep', lft)]) rs post :: C) rgt).
+      { rewrite Et'. rewrite <- plug1_eq. rewrite <- app_assoc. reflexivity. }
+      assert (HC2 : NoDup (ids rgt ++ ctx_ids (mkcf p (pre ++ [(sep', lft)]) rs post :: C))).
+      { apply plug_nodup. rewrite <- Et2. exact Hnd'. }
+      unfold pc_ok_b.
+      assert (F1 : find p t' = Some (INode p (pre ++ (sep', lft) :: (rs, rgt) :: post))).
+      { rewrite Et'. apply (find_plug_nid K V C (INode p (pre ++ (sep', lft) :: (rs, rgt) :: post))). exact HCp. }
+      assert (F2 : find fr t' = Some rgt).
+      { rewrite Et2. apply find_plug_x; [exact HC2 | exact N2]. }
+      rewrite F1, F2.
+      assert (R : in_range ltb key fr t' = true).
+      { rewrite Et2. eapply in_range_plug; [exact HC2 | exact N2 | simpl; rewrite ?Ecb; reflexivity | | exact Hhi'].
+        simpl. rewrite Ekr. reflexivity. }
+      fold key. rewrite R. apply Nat.ltb_lt in N4. rewrite N4. simpl.
+      apply andb_true_intro. split; apply existsb_exists.
+      * exists (sep', lft). split; [apply in_elt|]. simpl. apply Nat.eqb_eq. congruence.
+      * exists (rs, rgt). split; [apply in_or_app; right; right; left; reflexivity|]. simpl. apply Nat.eqb_eq. exact N2.
+  - (* no split *)
+    match type of H with bind ?e _ = _ => destruct e as [t'|] eqn:Hu; [cbn [bind] in H|discriminate H] end.
+    destruct (ins_nosplit_rel K V True [p] p p cs index sep sep' child t t' Hnd Hfp Hn Hu) as (_ & _ & Hnd' & _);
+      [simpl; auto|].
+    assert (Et' : t' = plug (mkcf p pre sep' post :: C) child).
+    { pose proof (upd_plug_nid K V C (INode p cs) (INode p (set_nth index (sep', child) cs)) HC) as Hu2.
+      simpl nid in Hu2. rewrite <- Et in Hu2. rewrite Hu2 in Hu. inversion Hu; subst t'.
+      rewrite Ecs. rewrite <- Hlen. rewrite set_nth_app. reflexivity. }
+    assert (HC' : NoDup (ids child ++ ctx_ids (mkcf p pre sep' post :: C))).
+    { apply plug_nodup. rewrite <- Et'. exact Hnd'. }
+    eapply ins_descend_pc with (nd := child); [exact H | exact Hnd' | | eapply isplit_none_count; eauto |].
+    + rewrite Et'. apply find_plug_x; [exact HC' | exact H3].
+    + rewrite Et'. eapply in_range_plug; [exact HC' | exact H3 | simpl; rewrite ?Ecb; reflexivity | exact Hge | exact Hhi'].
+Qed.
+
+(* F6: ins_child_pc for the NEW separator choice; the match is convertible with the InsWantChild case of blk. *)
+Lemma ins_child_pc_f6 order o p c index (t : itree) l l1 fr tm0 (out : out) :
+  1 <= order ->
+  NoDup (ids t) -> ~ In fr (ids t) -> ordered ltb (erase_ids t) ->
+  pc_ok_b ltb order t (InsWantChild o p c index) = true ->
+  match find p t, find c t with
+  | Some (INode pi cs), Some child =>
+    '(sep, _) <- get_nth index cs ;;
+    sep' <- Ok (if index =? 0 then (if ltb (key_of o) sep then key_of o else sep) else sep) ;;
+    match isplit order fr child with
+    | None =>
+      t' <- upd p (fun _ => Ok (INode pi (set_nth index (sep', child) cs))) t ;;
+      ins_descend ltb o c t' l1 fr tm0
+    | Some (lft, rgt) =>
+      rs <- ismallest rgt ;;
+      t' <- upd p (fun _ => Ok (INode pi (ins_nth (index + 1) (rs, rgt) (set_nth index (sep', lft) cs)))) t ;;
+      if ltb (key_of o) rs then ins_descend ltb o c t' l1 (S fr) tm0
+      else mk t' l (S fr) tm0 (InsWantSplitRight o p c fr) []
+    end
+  | _, _ => Panic PIndex end = Ok out ->
+  pc_ok_b ltb order (otr out) (opc out) = true.
+Proof.
+  intros Ho Hnd Hfr Hord Hok H. set (key := key_of o) in *.
+  unfold pc_ok_b in Hok.
+  destruct (find p t) as [[?|pi cs]|] eqn:Hfp; try discriminate Hok.
+  apply andb_prop in Hok; destruct Hok as [Hok H4]. apply andb_prop in Hok; destruct Hok as [Hok H3].
+  apply andb_prop in Hok; destruct Hok as [H1 H2].
+  destruct (nth_error cs index) as [[sep ch]|] eqn:Hn; [|discriminate H3]. apply Nat.eqb_eq in H3.
+  fold key in H2, H4.
+  destruct (search_le ltb key (map fst cs)) as [j|] eqn:Hs; [|discriminate H2]. simpl in H2. apply Nat.eqb_eq in H2. subst j.
+  apply Nat.ltb_lt in H1.
+  destruct (find c t) as [child|] eqn:Hfc; [|discriminate H].
+  assert (child = ch).
+  { pose proof (find_child K V p pi cs sep ch t Hnd Hfp (nth_error_In _ _ Hn)) as Hf2. rewrite H3 in Hf2. congruence. }
+  subst ch.
+  unfold get_nth in H. rewrite Hn in H. cbn [bind] in H.
+  destruct (find_ctx_nodup K V p t _ Hnd Hfp) as (C & Et & HC & Hpi). simpl in Hpi. subst pi.
+  destruct (nth_error_split cs index Hn) as (pre & post & Ecs & Hlen).
+  assert (Hbp : bounds p t = Some (ctx_bounds None None C)).
+  { rewrite Et. unfold bounds. apply (bounds_plug_nid K V C (INode p cs)). exact HC. }
+  unfold in_range in H4. rewrite Hbp in H4. destruct (ctx_bounds None None C) as [lo hi] eqn:Ecb.
+  cbn [bind] in H.
+  remember (if index =? 0 then (if ltb key sep then key else sep) else sep) as sep' eqn:Hsep.
+  symmetry in Hsep.
+  destruct (child_range_f6 o p cs pre post sep sep' child index t C lo hi Hord Hfp Ecs Hlen Hs H4 Hsep) as [Hlo' Hhi'].
   fold key in Hlo', Hhi'.
   assert (Hge : ge_lo ltb key (Some sep') = true) by (simpl; rewrite Hlo'; reflexivity).
   destruct (isplit order fr child) as [[lft rgt]|] eqn:Hsp.
